@@ -13,6 +13,7 @@ SOURCES = {
     "decode_hex_byte": ("1",),     # (byte, err)
     "push_limb": (),               # bool
 }
+INT_TYS = ("u32", "usize", "u64")
 GATE_SEGS = {"new"}
 GATE_OWNERS = ("subtle::CtOption", "const_choice::ConstCtOption")
 
@@ -29,6 +30,12 @@ class ErrPolicy(flow.Policy):
             lab = "err:%s@%s#%d" % (seg, view.id, bb)
             self.sources[lab] = (view.id, bb, term["s"], seg)
             return flow.v_write(ret, SOURCES[seg], flow.scalar({lab}), strong=False)
+        # a size read back from an allocated BoxedUint is rounded up to whole limbs: mark it
+        if term["args"] and not term["dst"][1] and view.locals[term["dst"][0]] in INT_TYS:
+            a0 = term["args"][0]
+            if a0[0] in ("c", "m") and not a0[1][1] and \
+                    mir.peel_refs(view.locals[a0[1][0]]) == "uint::boxed::BoxedUint":
+                return flow.v_join(ret, flow.scalar({"rounded:%s" % seg}))
         return ret
 
     def call_hook(self, engine, view, bb, term, argvals, callee_ids):
@@ -105,12 +112,16 @@ def run_c(facts, report, config, eng=None):
         summ, evs = eng.analyze(b["id"], collect=True)
         want_len = {"@%d#len" % slice_p[0]}
         found = None
+        rounded = None
         for e in evs:
             if e.kind != "branch" or e.via:
                 continue
             ls = e.labels
             has_len = bool(want_len & ls)
             has_prec = any(l == "@%d" % prec_p[0] or l.startswith("@%d." % prec_p[0]) for l in ls)
+            if has_len and has_prec and any(l.startswith("rounded:") for l in ls):
+                rounded = e.info.get("span")
+                continue
             if has_len and has_prec:
                 bi = e.bb[0]
                 t = view.blocks[bi]["term"]
@@ -126,8 +137,11 @@ def run_c(facts, report, config, eng=None):
         else:
             report.add(Instance(key, "c16.precguard", "violation",
                                 "no returning branch depends on both the length of `%s` and `%s`: input longer "
-                                "than the requested precision is not rejected" % (
-                                    names.get(str(slice_p[0])), names.get(str(prec_p[0]))), b["span"],
+                                "than the requested precision is not rejected%s" % (
+                                    names.get(str(slice_p[0])), names.get(str(prec_p[0])),
+                                    " (the comparison at %s uses a size read back from the allocated BoxedUint, which "
+                                    "is rounded up to whole limbs, instead of the requested precision)" % rounded
+                                    if rounded else ""), b["span"],
                                 {"body": b["id"]}), config)
 
 
